@@ -371,3 +371,10 @@ def run(facts, rep, tier):
              "and their chains are missing.")
     from . import c15 as _c15
     _c15.rule_r3(facts, rep, "C18-R8")
+    rep.rule("C18-R9", "Names are the headings' words: GraphInline::plain_text / DocumentInline::to_plain_text give every text-bearing variant its own arm built from its payload; the catch-all "
+             "yields \"\" only for audited variants (a heading's link text must not vanish from symbol names and search paths).")
+    from . import plaintext
+    plaintext.rule_plain_text(facts, rep, "C18-R9")
+    rep.rule("C18-R10", "= C16-R8: graph_to_paths removes duplicate paths with sorted().dedup(), which needs NodePath's order to be total and to agree with == (derived, or visibly lexicographic).")
+    from . import c16 as _c16
+    _c16.rule_r8(facts, rep, "C18-R10")
